@@ -72,7 +72,7 @@ class Report:
         self.functions.add(key)
 
     # ---------------------------------------------------------------- verdict
-    def finish(self, t0, seed=0):
+    def finish(self, t0, seed=0, write_evidence=True):
         reviewed = load_json(os.path.join(VERIF, "reviewed_sites.json"), {"sites": []})
         known = load_json(os.path.join(VERIF, "known_findings.json"), {"findings": []})
         rev = {}
@@ -106,9 +106,10 @@ class Report:
             else:
                 inst.status = "violation"
                 violations.append(inst)
-        os.makedirs(os.path.join(VERIF, "evidence", "violations"), exist_ok=True)
+        vdir = os.path.join(VERIF, "evidence", "violations") if write_evidence else os.path.join(__import__("tempfile").gettempdir(), "rml-selftest-violations")
+        os.makedirs(vdir, exist_ok=True)
         for i, v in enumerate(violations):
-            path = os.path.join(VERIF, "evidence", "violations", "%s-%d.json" % (self.prop, i))
+            path = os.path.join(vdir, "%s-%d.json" % (self.prop, i))
             with open(path, "w") as f:
                 json.dump({"property": self.prop, "rule": v.rule, "key": v.full_key(self.prop), "message": v.msg,
                            "location": span_str(v.span) if v.span else None, "detail": v.detail}, f, indent=1)
@@ -163,8 +164,9 @@ class Report:
             "violations": len(violations),
         }
         ev["coverage"].update(self.extra)
-        with open(os.path.join(VERIF, "evidence", "%s.json" % self.prop), "w") as f:
-            json.dump(ev, f, indent=1, default=str)
+        if write_evidence:
+            with open(os.path.join(VERIF, "evidence", "%s.json" % self.prop), "w") as f:
+                json.dump(ev, f, indent=1, default=str)
         print("%s: %d rule instances, %d discharged (%d by review), %d known finding(s), %d violation(s), %d functions, %.1fs" % (
             self.prop, n, discharged, len(reviewed_used), len(known_matched), len(violations), len(self.functions), time.time() - t0))
         return 1 if violations else 0
